@@ -1016,8 +1016,71 @@ fn witness(args: &Args) {
     }
 }
 
+/// `c13 child-ack <dir> <seed> <mode>`: run under strace by the syscall-order leg. Every call that
+/// acknowledges a durable state change is followed at once by an `ACK n what` line on fd 1.
+fn child_ack(dir: &str, seed: u64) {
+    use std::io::Write;
+    let path = Path::new(dir).join("tx.wal");
+    let c = new_coordinator(TxWal::open(&path).expect("open wal"));
+    let mut rng = Rng::new(seed);
+    let mut n = 0u64;
+    let mut ack = |what: &str| {
+        n += 1;
+        let mut o = std::io::stdout().lock();
+        let _ = writeln!(o, "ACK {} {}", n, what);
+        let _ = o.flush();
+    };
+    let who = "coord".to_string();
+    let mut txs: Vec<(u64, Vec<usize>)> = Vec::new();
+    for _ in 0..(20 + rng.below(30)) {
+        match rng.weighted(&[3, 8, 3, 2, 1]) {
+            0 => {
+                let parts = if rng.bool() { vec![0usize, 1] } else { vec![0usize, 1, 2] };
+                if let Ok(t) = c.begin(&who, &parts) {
+                    ack("begin");
+                    txs.push((t.tx_id, parts));
+                }
+            }
+            1 if !txs.is_empty() => {
+                let (tx, parts) = txs[txs.len() - 1 - rng.below(txs.len().min(2))].clone();
+                let shard = *rng.pick(&parts);
+                let vote = if rng.chance(1, 6) {
+                    PrepareVote::No { reason: "no".into() }
+                } else {
+                    PrepareVote::Yes { lock_handle: 1000 + rng.below(1000) as u64, delta: DeltaVector::zero(DIM) }
+                };
+                if c.record_vote(tx, shard, vote).is_ok() {
+                    ack("vote");
+                }
+            }
+            2 if !txs.is_empty() => {
+                let tx = txs[rng.below(txs.len())].0;
+                if c.commit(tx).is_ok() {
+                    ack("commit");
+                }
+            }
+            3 if !txs.is_empty() => {
+                let tx = txs[rng.below(txs.len())].0;
+                if c.abort(tx, "client").is_ok() {
+                    ack("abort");
+                }
+            }
+            _ => {
+                let t = h_chain::CaptureTransport::new("coord", &[]);
+                let _ = block_on(c.process_pending_aborts(&*t));
+            }
+        }
+    }
+}
+
 fn main() {
     let args = Args::parse();
+    if args.rest.first().map(|s| s.as_str()) == Some("child-ack") {
+        let dir = args.rest.get(1).cloned().unwrap_or_default();
+        let seed = args.rest.get(2).and_then(|s| s.parse().ok()).unwrap_or(1);
+        child_ack(&dir, seed);
+        return;
+    }
     if args.rest.iter().any(|a| a == "witness") {
         witness(&args);
         return;
